@@ -71,7 +71,7 @@ func VerifC18Dial() {
 	}
 	ssl := vLen("ssl", 0, 1) == 1
 	fail := vLen("dialfails", 0, 1) == 1
-	w := vNewWire()
+	w := vNewLiveWire()
 	d := &vDialer{wire: w, fail: fail}
 	vInstallDialer(d)
 	cfg := NewConfig("me")
@@ -103,8 +103,8 @@ func VerifC18Dial() {
 		vAssert(err == nil, "connect-ok")
 		vAssert(registers == 1 && others == 0, "register-once-before-connect-returns")
 		vAssert(conn.Connected(), "connected-after-connect")
-		lines := vDrain(conn)
-		vAssert(len(lines) == 2 && lines[0] == "NICK me", "registration-sent")
+		vRunPending() // let the send goroutine put the queued lines on the wire
+		vAssert(len(w.written) == 2 && w.written[0] == "NICK me\r\n", "registration-sent")
 	}
 	vDropPending()
 	vReach("end")
@@ -176,6 +176,48 @@ func VerifC18Keepalive() {
 			}
 			vAssert(vEventCount("ticker-stop") == 1, "monitor:ticker-stopped")
 		}
+	}
+	vReach("end")
+}
+
+// VerifC18LongPing: a PING whose token is longer than bufio's 4096-byte buffer,
+// arriving over the connection (real recv loop), is still answered with the whole token.
+func VerifC18LongPing() {
+	conn := vNewConn(false)
+	filler := make([]byte, vParam("FILL", 4200))
+	for i := range filler {
+		filler[i] = 'a'
+	}
+	tail := vStr("tail", vLen("taillen", 0, 2))
+	for i := 0; i < len(tail); i++ {
+		b := tail[i]
+		vAssume(b < 0x80 && b != 0 && b != '\r' && b != '\n' && (b == ' ' || b-9 >= 5))
+	}
+	tok := string(filler) + tail
+	w := vNewWire("PING :" + tok + "\r\n")
+	conn.sock = w
+	conn.postConnect(nil, false)
+	conn.wg.Add(1)
+	conn.recv()
+	n := 0
+	for {
+		var l *Line
+		select {
+		case l = <-conn.in:
+		default:
+		}
+		if l == nil {
+			break
+		}
+		n++
+		conn.dispatch(l)
+		vRunPending()
+	}
+	vAssert(n == 1, "one-line-received")
+	got := vDrain(conn)
+	vAssert(len(got) == 1, "one-pong")
+	if len(got) == 1 {
+		vAssert(got[0] == "PONG :"+tok, "pong-same-token")
 	}
 	vReach("end")
 }
